@@ -127,7 +127,7 @@ Lemma stepE_generic s t c l p rest :
   match p with
   | PSpin | PGilTest | PGilInit | PGilRelease | PCas1 | PMTest | PMInit | PCas2 | PLock | PInPy => True
   | _ => False
-  end -> InvE (step s (t, c)).
+  end -> InvE (cstep s (t, c)).
 Proof.
   intros A E Ht Hst P. ustep. cbv beta iota zeta. rewrite Ht, Hst. cbn [negb].
   pose proof (rest_special s t l p rest A Hst) as RS.
@@ -441,7 +441,7 @@ Proof.
   - destruct Lk as (_ & _ & S & _). congruence.
 Qed.
 
-Lemma stepE s tc : InvA s -> InvD s -> InvE s -> InvE (step s tc).
+Lemma stepE s tc : InvA s -> InvD s -> InvE s -> InvE (cstep s tc).
 Proof.
   intros A D E. destruct tc as [t c].
   destruct (t <? nthr s) eqn:Ht; [|ustep; rewrite Ht; exact E].
@@ -498,7 +498,7 @@ Proof.
       try (unfold lib_ok; cbn; auto).
 Qed.
 
-Lemma step_inv s tc : Inv s -> Inv (step s tc).
+Lemma step_inv s tc : Inv s -> Inv (cstep s tc).
 Proof.
   intros [A B C D E]. constructor.
   - apply stepA; assumption.
@@ -508,8 +508,8 @@ Proof.
   - apply stepE; assumption.
 Qed.
 
-Lemma run_inv_from sched : forall s, Inv s -> Inv (fold_left step sched s).
+Lemma run_inv_from sched : forall s, Inv s -> Inv (fold_left cstep sched s).
 Proof. induction sched as [| tc sched IH]; intros s H; cbn; [exact H | apply IH, step_inv, H]. Qed.
 
 Theorem run_inv n sched : Inv (run n sched).
-Proof. apply run_inv_from, init_inv. Qed.
+Proof. rewrite (proj1 (run_cstep n sched)). apply run_inv_from, init_inv. Qed.
